@@ -318,6 +318,8 @@ func (m *Meta) RenameTable(from, to string) *Meta {
 	}
 	tsNew := *ts // copy
 	tsNew.Table = to
+	// the new name may have persisted entries, so drop needs a tombstone
+	tsNew.created = 0
 	if tmp, ok := m.schema.Get(to); ok && !tmp.IsTomb() {
 		panic("can't rename to existing table: " + to)
 	}
@@ -325,6 +327,7 @@ func (m *Meta) RenameTable(from, to string) *Meta {
 	assert.That(ok && ti != nil)
 	tiNew := *ti // copy
 	tiNew.Table = to
+	tiNew.created = 0
 
 	m.setFkeyIIndex(&tsNew)
 	mu := newMetaUpdate(m)
@@ -360,7 +363,7 @@ func (m *Meta) Drop(name string) *Meta {
 	} else {
 		mu.putSchema(m.newSchemaTomb(name))
 	}
-	ti := m.schema.MustGet(ts.Table)
+	ti := m.info.MustGet(ts.Table)
 	if ti.created != 0 && ti.created == m.info.Clock {
 		// not persisted so no need for tombstone
 		mu.info = mu.meta.info.Mutable()
